@@ -25,21 +25,36 @@ PROVED = [
     '[B] kronecker_bounded: for |a|, |b| <= 2^7 the routine equals the reference symbol kron_ref (factorisation of b over the '
     'proved sieve, Euler criterion for odd primes, (a/2) table, (a/-1) = sign a), vm_compute over 257 x 257 x 2 profiles; '
     'kron_ref_factorisation_bounded: the factorisation used by the reference is complete on the box',
+    '[P] kronecker_spec: for ALL a, b in the i64 range, dev and release profile, kronecker m a b = Done (K a b), where '
+    'K (Refine/RecipKronecker.v) is the Kronecker symbol from the definition: K a 0 = [|a| = 1]; else (a/sign b) * product over the '
+    'prime factors p of |b| with multiplicity (trial division, smallest first) of the local symbol (a/p) '
+    '(p = 2: table by a mod 8; odd p: Euler criterion (a mod p)^((p-1)/2) mod p; (a/-1) = -1 iff a < 0). Proof: loop invariant '
+    'k * (a_cur/b_cur) = (a/b) with b_cur odd positive, using the Jacobi-symbol laws below and the overflow/fuel facts of kronecker_total',
+    '[P] K_factorisation + K_b0 + factorisation_exists: K a (u * p1...pk) = (a/u) * (a/p1)...(a/pk) for ANY sign u and ANY list of '
+    'primes (any order), and every b <> 0 has such a factorisation: these equations determine K, so the order of the recursion in its '
+    'definition is immaterial; kron_ref_K: the reference symbol of kronecker_bounded equals K on its box',
+    '[P] legendre_qr (Euler criterion, both halves: the Euler-power symbol is 1 exactly on the non-zero squares mod p; converse by '
+    'counting the roots of X^((p-1)/2) - 1 over F_p, Refine/RecipEuler.v), legendre_mul, legendre_eq0 (Fermat), legendre_m1, legendre_2 (Gauss\'s lemma), legendre_reciprocity '
+    '(law of quadratic reciprocity for distinct odd primes: Gauss\'s lemma + Eisenstein\'s lattice-point count, Refine/RecipLegendre.v, '
+    'MathComp zmodp/bigop; transferred to Z.pow/Z.modulo in Refine/RecipBridge.v); jacobi_reciprocity: (m/n) = eps(m,n) (n/m) for all '
+    'odd positive m, n, coprime or not (Refine/RecipJacobi.v, RecipKronecker.v)',
 ]
 NOT_PROVED = [
-    'kronecker = Kronecker symbol for unbounded arguments (needs quadratic reciprocity; not available in MathComp 1.15/stdlib)',
     'prime iterator: that the fuel of one next() (now + 2 candidates) always suffices (Bertrand\'s postulate); primes_take_spec excludes OutOfFuel by hypothesis',
     'BigInt::nth_root itself (num\'s Newton iteration) is not modelled: the model uses a bit-by-bit floor root, tied to the code by correspondence only',
 ]
 
 CLAIM = dict(
     technique='Coq proofs about the Gallina model (inv/zmod/perfect_power/sieve/prime iterator/kronecker) + extracted-model-vs-implementation correspondence',
-    text='The 15 theorems of coq/Props/C19.v: modular inverse, zmod, floor root, perfect power, sieve, trial-division primality, '
+    text='The theorems of coq/Props/C19.v: modular inverse, zmod, floor root, perfect power, sieve, trial-division primality, '
          'Kronecker range / b = 0 / both-even / totality on i64 hold for all integers (no bound); the prime iterator is proved partially '
-         'correct; Kronecker = mathematical symbol is proved on the box |a|,|b| <= 128 by enumeration. The model is tied to /repo by running the '
-         'extracted model and impl_svc on the same inputs (exhaustive boxes + random big integers + i64 extremes), with independent oracles.',
-    note='Not proved: Kronecker symbol equality beyond the box (quadratic reciprocity unavailable; covered by the oracle on the explored boxes only); '
-         'iterator fuel sufficiency (Bertrand); BigInt::nth_root is modelled by a floor-root routine, not num\'s Newton iteration. '
+         'correct; kronecker_spec: the model of kronecker_symbol_i64 returns the Kronecker symbol K a b (defined from the definition: sign, '
+         '(a/2) table, Euler criterion over the prime factorisation of |b|) for ALL a, b in the i64 range in both build profiles; the '
+         'number theory it needs (Euler\'s criterion, Gauss\'s lemma, supplementary laws, quadratic reciprocity, Jacobi-symbol laws) is proved in Coq, '
+         'nothing assumed. The bounded enumeration theorem (|a|,|b| <= 128 against kron_ref) is kept and kron_ref = K on that box. The model is '
+         'tied to /repo by running the extracted model and impl_svc on the same inputs (exhaustive boxes + random big integers + i64 '
+         'extremes), with independent oracles.',
+    note='Not proved: iterator fuel sufficiency (Bertrand); BigInt::nth_root is modelled by a floor-root routine, not num\'s Newton iteration. '
          'Trusted base listed in the evidence file.',
     ref='DESIGN.md section 4, C19')
 
